@@ -1,7 +1,7 @@
 #!/bin/bash
 # usage: procseed2.sh <prop> [extra props to check] ; worktree /tmp/mut2/<prop>
 p=$1; shift
-wt=/tmp/mut2/$p
+wt=${MUTDIR:-/tmp/mut2}/$p
 cd $wt || exit 2
 git diff -- . ':!seed_demo_test.go' ':!NOTES.md' ':!patch.diff' ':!PROPERTY.txt' ':!INSTRUCTIONS.md' > patch.diff
 echo "--- files changed:"; git diff --stat -- . ':!seed_demo_test.go' | tail -3
